@@ -2,20 +2,22 @@
 (* Design check for C15: TLC explores every schedule of up to MaxSig signals  *)
 (* (SIGINT / SIGTERM) against every step of constructor, one or two           *)
 (* registrations, solve, report, destructor and the time after it, and checks *)
-(* the monitor invariants.  MCSignals.cfg uses an order of the stores for     *)
-(* which they hold; MCSignalsPinned.cfg the order of the code as it is, for   *)
-(* which TLC reports the schedules that break them (the predictions that the  *)
-(* binding run then confirms on the real code).                               *)
+(* the monitor invariants.  MCSignals.cfg uses the order of the stores of the *)
+(* code as it is; MCSignalsBeforeFix.cfg the order the code had before two    *)
+(* defects found by this check were repaired, for which TLC reports the       *)
+(* schedules that break the invariants.                                       *)
 EXTENDS Signals, TLC
-\* the order of the stores in the code as it is
-CtorPinned == <<"interrupter", "msgptr", "msgsize", "sigint", "sigterm", "stop0">>
-SetPinned == <<"handler", "data">>
-DtorPinned == <<"interrupter0", "stop1", "handler0", "msgsize0">>
-\* an order that meets the invariants: the counter is cleared before the handlers are
-\* installed; a registration first withdraws the old callback, then stores the data,
-\* then publishes the new callback
-CtorSafe == <<"interrupter", "msgptr", "msgsize", "stop0", "sigint", "sigterm">>
-SetSafe == <<"handler0", "data", "handler">>
+\* the order of the stores in the code as it is (after the fixes a92d15d and b1f2273 in /repo):
+\* the counter is cleared before the handlers are installed; a registration first
+\* withdraws the old callback, then stores the data, then publishes the new callback
+CtorCode == <<"interrupter", "msgptr", "msgsize", "stop0", "sigint", "sigterm">>
+SetCode == <<"handler0", "data", "handler">>
+DtorCode == <<"interrupter0", "stop1", "handler0", "msgsize0">>
+\* the order before those fixes: stop_ := 0 after signal(), handler_ before data_.
+\* MCSignalsBeforeFix.cfg must FAIL (NotLost, Paired, Third): the self-test that the
+\* invariants can tell the two orders apart.
+CtorBefore == <<"interrupter", "msgptr", "msgsize", "sigint", "sigterm", "stop0">>
+SetBefore == <<"handler", "data">>
 \* every run ends, and with a defined status
 Ends == pc > Len(Prog(nreg)) => exited = 0
 Bounded == nsig <= MaxSig /\ stop \in 0..3
